@@ -173,6 +173,10 @@ func Depth() int {
 // Actor tags subsequent heap accesses with actor i (footprint tracking, engine only). [intrinsic]
 func Actor(i int) { actor = i }
 
+// AssertDisjointFootprints: no heap cell written under one actor was touched under another
+// (engine only; natively a no-op). [intrinsic]
+func AssertDisjointFootprints(id int) {}
+
 // Render gives a canonical text for a logged structural value. The engine produces the same
 // text for concrete values: ints in decimal, bools, strings quoted, nil, structs as
 // Type{f1,f2}, with package paths stripped from type names.
